@@ -260,18 +260,20 @@ Section Parser.
   Proof.
     intros ls parts st st' [[c BI] I] H. unfold split_remap in H.
     destruct parts as [|p ps]; [injection H as Hs; subst; split; [exists c|]; assumption|].
-    destruct (emit_parts gm text (p :: ps) 0 (sk st)) as [[e s]|] eqn:E; [|discriminate].
-    destruct (negb (e =? ll (p_tok (b0 st)))) eqn:Q; [discriminate|].
+    destruct (eat_trivia gm text st) as [st1|] eqn:Et; [|discriminate].
+    destruct (eat_trivia_inv _ _ _ _ _ _ BI I Et) as (BIt & It & _).
+    destruct (emit_parts gm text (p :: ps) 0 (sk st1)) as [[e s]|] eqn:E; [|discriminate].
+    destruct (negb (e =? ll (p_tok (b0 st1)))) eqn:Q; [discriminate|].
     apply negb_false_iff, Nat.eqb_eq in Q.
-    destruct (emit_parts_spec _ _ _ _ _ I E) as (I1 & _ & P1).
-    assert (BI1 : BufInv ls c 0 e (with_sink st s)).
-    { destruct BI as [(k & S1) S2 B C1 C2 C3 T0 T1 T2 T3].
+    destruct (emit_parts_spec _ _ _ _ _ It E) as (I1 & _ & P1).
+    assert (BI1 : BufInv ls (c ++ p_triv (b0 st)) 0 e (with_sink st1 s)).
+    { destruct BIt as [(k & S1) S2 B C1 C2 C3 T0 T1 T2 T3].
       constructor; cbn [with_sink sk b0 b1 b2 b3 lx]; try assumption.
       - exists k. exact S1.
       - lia.
       - lia. }
     destruct (advance_inv _ _ _ _ _ _ BI1 I1 H) as (BI2 & I2 & _). cbn [with_sink b0] in BI2.
-    split; [|exact I2]. subst e. eexists. apply (bufinv_shift _ _ 0 0 (ll (p_tok (b0 st)))). exact BI2.
+    split; [|exact I2]. subst e. eexists. apply (bufinv_shift _ _ 0 0 (ll (p_tok (b0 st1)))). exact BI2.
   Qed.
 
   Lemma step_inv : forall ls st o st', Good ls st -> step gm text st o = Some st' -> Good ls st'.
